@@ -38,7 +38,8 @@ Definition model_of (construct : Z) (w cap : nat) (input : list Z) : option (net
   else if is 4%Z then Some (pbuf_net w, pbuf_init w input)
   else if is 5%Z then Some (buffer_net, buffer_init cap input)
   else if is 6%Z then Some (fanin_net w (fun j => j), fanin_init w 0 (map (chunk input w) (seq 0 w)))
-  else if is 7%Z then Some (fanin_net w (fun _ => 0), fanin_init w (2 * w + 1) [input])
+  else if is 7%Z then Some (gen_net w GEof, gen_init w input)     (* ends with io.EOF, bare or wrapped *)
+  else if is 17%Z then Some (gen_net w GFail, gen_init w input)   (* ends with a real error: aborted *)
   else if is 8%Z then Some (readone_net w, readone_init w cap input)
   else None.
 
@@ -56,10 +57,23 @@ Definition model_ok (construct : Z) (w cap : nat) (input : list Z) (rot : nat) :
       && (if ordered construct w then list_eqb (s_deliv s) input else true)
   end.
 
+(* every element of a occurs in b at least as often: nothing invented, nothing duplicated *)
+Definition subb (a b : list Z) : bool := forallb (fun x => countZ x a <=? countZ x b) a.
+
+(* GenerateParallel whose generator fails (construct 17): the run is aborted - the failure cancels the
+   worker group and values in flight may be dropped. The model's run must still end with nothing
+   running, and what it delivered + dropped + left in the input / the pipe is the input *)
+Definition abort_ok (w : nat) (input : list Z) (rot : nat) : bool :=
+  let N := gen_net w GFail in
+  let s := run N (40 * (length input + w + 4) + 100) rot false None (gen_init w input) in
+  quiescentb N s && (leaks N s =? 0) && (stuck_users N s =? 0)
+  && permb (s_deliv s ++ s_drop s ++ concat (s_srcs s) ++ concat (map c_buf (s_chans s))) input.
+
 Definition check_case (c : case) : bool :=
   match c with
   | C01Case id construct workers cap input delivered ok =>
       let w := Z.to_nat workers in
+      if Z.eqb construct 17 then ok && subb delivered input && abort_ok w input (Z.to_nat id mod 5) else
       ok && permb delivered input
       && (if ordered construct w then list_eqb delivered input else true)
       && (if length input <=? 64 then model_ok construct w (Z.to_nat cap) input (Z.to_nat id mod 5) else true)
